@@ -14,7 +14,7 @@ Definition score_of (t : stbl) (m : N) (q v : vec) : N :=
   | None => BAD
   end.
 
-Definition mstep := step gen_invalidates gen_keep gen_eps_bits gen_thr_num gen_thr_den.
+Definition mstep (maxd : N) := step gen_invalidates gen_keep gen_eps_bits gen_thr_num gen_thr_den maxd.
 
 Definition res_eqb (a b : list (N * N)) : bool := list_eqb (pair_eqb N.eqb N.eqb) a b.
 Definition out_eqb (a b : out) : bool :=
@@ -64,23 +64,26 @@ Definition data_eqb (x y : list (N * vec)) : bool := list_eqb (pair_eqb N.eqb ve
 Definition supd (a : sst) (c : N) (w : list (N * vec)) : sst :=
   let x := sget a c in
   aset a c (SC w (if data_eqb w (written x) then valid x else None)).
-Definition sstep (a : sst) (o : op) : sst :=
+(* what the caller's writes amount to, given the configured max_dimension (0 = none): a single store
+   of an over-long vector is rejected; a batch stores its elements in order up to the first rejected one *)
+Definition sstep (maxd : N) (a : sst) (o : op) : sst :=
   match o with
-  | OStore c k (x :: v) | OStoreMeta c k (x :: v) => supd a c (aset (written (sget a c)) k (x :: v))
+  | OStore c k (x :: v) | OStoreMeta c k (x :: v) =>
+      if too_long maxd (x :: v) then a else supd a c (aset (written (sget a c)) k (x :: v))
   | ODelete c k => supd a c (adel (written (sget a c)) k)
   | OBatchStore kvs =>
       if existsb (fun kv => match snd kv with [] => true | _ => false end) kvs then a
-      else supd a 0 (fold_left (fun w kv => aset w (fst kv) (snd kv)) kvs (written (sget a 0)))
+      else supd a 0 (fold_left (fun w kv => aset w (fst kv) (snd kv)) (stored_prefix maxd kvs) (written (sget a 0)))
   | OBatchDelete ks => supd a 0 (fold_left (fun w k => adel w k) ks (written (sget a 0)))
   | OClear => supd a 0 []
   | _ => a
   end.
 (* delete_collection and build need to know what the implementation answered *)
-Definition sstep_out (a : sst) (o : op) (r : out) (dump_c : list (N * vec)) : sst :=
+Definition sstep_out (maxd : N) (a : sst) (o : op) (r : out) (dump_c : list (N * vec)) : sst :=
   match o, r with
   | ODeleteColl c, RUnit => supd a c []
   | OBuild c, RUnit => let x := sget a c in aset a c (SC (written x) (Some dump_c))
-  | _, _ => sstep a o
+  | _, _ => sstep maxd a o
   end.
 
 (* ---- observations: (returned value, read-back of every collection in play) ---- *)
@@ -187,35 +190,39 @@ Definition tdump_matches (td : tdump) (tg : tags) : bool :=
      Nat.eqb (length rows) (length m) &&
      forallb (fun kv => match aget m (fst kv) with Some x => N.eqb x (snd kv) | None => false end) rows) td.
 
-Definition model_step_ok (t : stbl) (s : st) (tg : tags) (o : op) (ob : obs) : st * tags * bool :=
+Definition model_step_ok (maxd : N) (t : stbl) (s : st) (tg : tags) (o : op) (ob : obs) : st * tags * bool :=
   let '(r, d, td) := ob in
-  let '(s', mr) := mstep s o in
-  let tg' := tstep s tg o in
+  let '(s', mr) := mstep maxd s o in
+  let tg' := tstep maxd s tg o in
   (s', tg', dump_matches d s' && tdump_matches td tg' &&
        match o with
        | OSearchFiltered c q k b strat =>
-           fpath_ok t (filtered_path gen_cached_dim_guard gen_post_filter_fallback s tg c q k b strat) q k r
-       | OSearch c q k => path_ok t (search_path gen_cached_dim_guard s c q k) q k r
+           fpath_ok t (filtered_path gen_cached_dim_guard maxd gen_post_filter_fallback s tg c q k b strat) q k r
+       | OSearch c q k => path_ok t (search_path gen_cached_dim_guard maxd s c q k) q k r
        | OSearchMetric q k m => path_ok t (search_metric_path s q k m) q k r
        | _ => out_eqb mr r
        end).
 
 (* dumps must list keys in increasing order without repetition (canonical form) *)
-Fixpoint walk (t : stbl) (s : st) (tg : tags) (a : sst) (ops : list op) (os : list obs) : N :=
+(* walk the WHOLE trace: the property oracle is evaluated on every observation, also after a
+   model/implementation disagreement (remembered in `mism`, reported only if no observation violated
+   the property) *)
+Fixpoint walk (maxd : N) (t : stbl) (s : st) (tg : tags) (a : sst) (mism : bool) (ops : list op) (os : list obs) : N :=
   match ops, os with
-  | [], [] => V_OK
+  | [], [] => if mism then V_MISMATCH else V_OK
   | o :: ops', ob :: os' =>
       let '(r, d, _) := ob in
-      let a' := sstep_out a o r (dget d (match o with OBuild c => c | _ => 0 end)) in
+      let a' := sstep_out maxd a o r (dget d (match o with OBuild c => c | _ => 0 end)) in
       if negb (oracle_step t a' o ob) then V_VIOLATION
-      else let '(s', tg', ok) := model_step_ok t s tg o ob in
-           if ok then walk t s' tg' a' ops' os' else V_MISMATCH
+      else let '(s', tg', ok) := model_step_ok maxd t s tg o ob in
+           walk maxd t s' tg' a' (mism || negb ok) ops' os'
   | _, _ => 9
   end.
 
-Definition trace_case := (stbl * list op * list obs)%type.
+(* (max_dimension (0 = none), score table, ops, observations) *)
+Definition trace_case := (N * stbl * list op * list obs)%type.
 Definition check_trace (c : trace_case) : N :=
-  let '(t, ops, os) := c in walk t [] [] [] ops os.
+  let '(maxd, t, ops, os) := c in walk maxd t [] [] [] false ops os.
 
 (* ---- representation round trip on the implementation: (v, SparseVector::from_dense(v).to_dense()) *)
 Definition sparse_case := (vec * vec)%type.
